@@ -247,10 +247,44 @@ func runC25(c *core.Ctx) {
 				}, core.AnyReturn, nil, "the removed element is subtracted from the sender's totals (onRemovedListElement)")
 			} else {
 				v := core.Strip(cc.Args[1])
-				mustPass(c, fn, "C25/sender-list-totals-co-updated", fmt.Sprintf("%s/%s#%d", fname(fn), d.Name, i), in, func(x ssa.Instruction) bool {
-					c2 := core.CallOf(x)
-					return c2 != nil && core.CallDesc(c2).Name == "onAddedTransaction" && ssa.Value(c2.Args[1]) == v
-				}, core.AnyReturn, nil, "the inserted transaction is added to the sender's totals (onAddedTransaction)")
+				added := func(v ssa.Value) func(x ssa.Instruction) bool {
+					return func(x ssa.Instruction) bool {
+						c2 := core.CallOf(x)
+						return c2 != nil && core.CallDesc(c2).Name == "onAddedTransaction" && ssa.Value(c2.Args[1]) == v
+					}
+				}
+				// a method that only links its parameter into the list leaves the totals to its callers: the
+				// obligation is then each caller's, for the argument it hands over
+				if esc, _ := (core.PathQ{Fn: fn, From: in, Via: added(v), Target: core.AnyReturn}).Escape(); esc != nil {
+					pi := -1
+					for k, p := range fn.Params {
+						if ssa.Value(p) == v {
+							pi = k
+						}
+					}
+					type site struct {
+						in     ssa.Instruction
+						caller *ssa.Function
+					}
+					var sites []site
+					if pi >= 0 {
+						for _, g := range c.P.FuncsOfPkg(pkg) {
+							for _, ci := range core.CallsIn(g, func(_ ssa.Instruction, c2 *ssa.CallCommon) bool { return c2.StaticCallee() == fn }) {
+								sites = append(sites, site{ci, g})
+							}
+						}
+					}
+					if len(sites) > 0 {
+						for k, st := range sites {
+							av := core.Strip(core.CallOf(st.in).Args[pi])
+							mustPass(c, st.caller, "C25/sender-list-totals-co-updated", fmt.Sprintf("%s/%s#%d/via-%s#%d", fname(fn), d.Name, i, fname(st.caller), k), st.in, added(av),
+								core.AnyReturn, nil, "the transaction handed to the linking helper is added to the sender's totals (onAddedTransaction)")
+						}
+						continue
+					}
+				}
+				mustPass(c, fn, "C25/sender-list-totals-co-updated", fmt.Sprintf("%s/%s#%d", fname(fn), d.Name, i), in, added(v),
+					core.AnyReturn, nil, "the inserted transaction is added to the sender's totals (onAddedTransaction)")
 			}
 		}
 	}
@@ -350,18 +384,29 @@ func c25LimitsAndSweep(c *core.Ctx) {
 			if cc == nil || cc.StaticCallee() == nil {
 				return false
 			}
-			n := cc.StaticCallee().Name()
-			return (n == "PushFront" || n == "PushBack" || n == "InsertAfter" || n == "InsertBefore") && cc.StaticCallee().Pkg != nil && cc.StaticCallee().Pkg.Pkg.Path() == "container/list"
+			isListInsert := func(g *ssa.Function) bool {
+				n := g.Name()
+				return (n == "PushFront" || n == "PushBack" || n == "InsertAfter" || n == "InsertBefore") && g.Pkg != nil && g.Pkg.Pkg.Path() == "container/list"
+			}
+			if isListInsert(cc.StaticCallee()) {
+				return true
+			}
+			// a method of the list that links its argument in
+			if h := cc.StaticCallee(); h.Blocks != nil && h.Pkg == fn.Pkg && h != fn {
+				return len(core.CallsIn(h, func(_ ssa.Instruction, hc *ssa.CallCommon) bool { return hc.StaticCallee() != nil && isListInsert(hc.StaticCallee()) })) > 0
+			}
+			return false
 		}
 		var apply *ssa.Call
 		isApply := func(in ssa.Instruction) bool {
 			cc := core.CallOf(in)
-			if cc != nil && cc.StaticCallee() != nil && cc.StaticCallee().Name() == "applySizeConstraints" {
-				apply, _ = in.(*ssa.Call)
-				return true
-			}
-			return false
+			return cc != nil && cc.StaticCallee() != nil && cc.StaticCallee().Name() == "applySizeConstraints"
 		}
+		core.Instrs(fn, func(in ssa.Instruction) {
+			if isApply(in) {
+				apply, _ = in.(*ssa.Call)
+			}
+		})
 		k := 0
 		core.Instrs(fn, func(in ssa.Instruction) {
 			if !isInsert(in) {
